@@ -27,6 +27,11 @@ def baseline(unit):
     return b.get('discharged', {})
 
 
+def baseline_text_fp(unit):
+    b = load_json(os.path.join(VERIF, 'contracts', unit, 'baseline.json'), {})
+    return b.get('text_fp')
+
+
 def baseline_anchors(unit):
     b = load_json(os.path.join(VERIF, 'contracts', unit, 'baseline.json'), {})
     return b.get('anchors')
@@ -44,7 +49,7 @@ def rebaseline(units):
             continue
         d = {oid: info['text'] for oid, info in sorted(r.obligations.items()) if oid not in r.failed}
         path = os.path.join(VERIF, 'contracts', u, 'baseline.json')
-        json.dump({'unit': u, 'discharged': d, 'failed_at_baseline': sorted(r.failed), 'anchors': r.anchor_fp}, open(path, 'w'), indent=1, sort_keys=True)
+        json.dump({'unit': u, 'discharged': d, 'failed_at_baseline': sorted(r.failed), 'anchors': r.anchor_fp, 'text_fp': r.text_fp}, open(path, 'w'), indent=1, sort_keys=True)
         print('unit %s: %d obligations, %d discharged, %d failing: %s' % (u, len(r.obligations), len(d), len(r.failed), sorted(r.failed)))
 
 
@@ -140,12 +145,25 @@ def check_property(pid, tier='quick', seed=0, replay_only=None):
     violations = []
     known_hits = []
     never_proved = []
+    unstable = []
     for oid, msgs in failed.items():
         unit = oid.split('/')[0]
         if oid in kf_ids:
             known_hits.append(kf_ids[oid])
         elif unit == 'scan' or oid in baseline(unit):
-            violations.append((oid, msgs))
+            # Verification is modular.  If the verified text of the obligation's function AND everything its
+            # verification condition can depend on (template, extracted types/consts, every signature + contract) are
+            # byte-identical to the pinned tree, the code cannot be the cause of the failure: the solver lost a proof it
+            # had (e.g. after an edit of ANOTHER function changed the query order).  Undecided, never an alarm.
+            bfp = baseline_text_fp(unit) if unit != 'scan' else None
+            cfp = getattr(results.get(unit), 'text_fp', None)
+            fnid = obligations.get(oid, {}).get('fn')
+            if obligations.get(oid, {}).get('kind') == 'lemma':
+                fnid = None
+            if bfp and cfp and bfp.get('ctx') == cfp.get('ctx') and (fnid is None or fnid not in cfp['fns'] or bfp['fns'].get(fnid) == cfp['fns'].get(fnid)):
+                unstable.append(oid)
+            else:
+                violations.append((oid, msgs))
         else:
             never_proved.append(oid)
     for k in kani_res:
@@ -172,12 +190,14 @@ def check_property(pid, tier='quick', seed=0, replay_only=None):
     lines = []
     replays = []
     internal_only = []
-    if undecided or never_proved:
+    if undecided or never_proved or unstable:
         exit_code = 2
         for x in undecided:
             lines.append('UNDECIDED property=%s %s' % (pid, x))
         for x in never_proved:
             lines.append('UNDECIDED property=%s obligation %s fails but was never recorded as discharged (not a violation)' % (pid, x))
+        for x in unstable:
+            lines.append('UNDECIDED property=%s obligation %s fails although the verified text of its function and of everything its proof depends on is byte-identical to the pinned tree: the solver lost a proof (instability), the code cannot be the cause' % (pid, x))
     for k in known_hits:
         lines.append('KNOWN-FINDING: property=%s %s' % (pid, k['what']))
     lost_viol = []
@@ -350,7 +370,7 @@ def check_property(pid, tier='quick', seed=0, replay_only=None):
             'battery_sweep_bounded': battery,
             'kani_not_run': [{'harness': k['harness'], 'reason': k.get('reason', '')} for k in kani_not_run],
             'kani_complete_proofs': [k for k in kani_res if k.get('counts_as_proof')],
-            'undecided': undecided + never_proved + internal_only,
+            'undecided': undecided + never_proved + internal_only + unstable,
             'stability': {u: getattr(r, 'stability', None) for u, r in results.items()},
             'cvc5_cross_check': {u: getattr(r, 'cvc5', None) for u, r in results.items()},
             'not_reached': entry.get('not_reached', ''),
@@ -367,7 +387,7 @@ def check_property(pid, tier='quick', seed=0, replay_only=None):
     for l in lines:
         print(l)
     print('%s tier=%s obligations=%d discharged=%d known=%d violations=%d undecided=%d wall=%.1fs' % (
-        pid, tier, n_obl, n_dis, len(known_hits), (len(violations) if not undecided else 0) + len(rescue), len(undecided) + len(never_proved) + len(internal_only), time.time() - t0))
+        pid, tier, n_obl, n_dis, len(known_hits), (len(violations) if not undecided else 0) + len(rescue), len(undecided) + len(never_proved) + len(internal_only) + len(unstable), time.time() - t0))
     return exit_code
 
 
